@@ -15,7 +15,7 @@ import (
 func init() {
 	register(&propSpec{ID: "C05", Run: checkC05,
 		Explanation: "Structural necessary condition only: the real-valued function computed for the delta is the documented one — per resource ⌈n·(p−t)/t⌉ in the normal branch and ⌈100·req/(cap₁·t)⌉ from the cached node size in the from-zero branch (rational-function normal form, any algebraically equal spelling passes), combined as int(max(ceil_cpu, ceil_mem)); 1 when no node size was ever cached; the percent inputs are 100·req/cap; the node count is the untainted list; the from-zero sentinel is one constant, produced only when there are 0 untainted nodes and tested with equality on both consumers; the cached node size is written only from a listed node's allocatable. By the lemma in DESIGN.md §4 C05 the exact value is the least sufficient N; floating-point rounding (the statement's \"+1\") is NOT decided.",
-		RuleText:    "R1 percent formula (2), R2 delta formula per branch and resource (4) + skeleton + no-cache branch, R3 rounding direction, R4 node-count provenance, R5 sentinel agreement, R6 cached node size stores, R7 composition (C07.R2), R8 capacity summed over every listed node, R9 the cloud request is cut short by the maximum only, R10 an untainted node is one brought into service: the untaint candidates are uncordoned tainted nodes (C01.R5)",
+		RuleText:    "R1 percent formula (2), R2 delta formula per branch and resource (4) + skeleton + no-cache branch, R3 rounding direction, R4 node-count provenance, R5 sentinel agreement, R6 cached node size stores, R7 composition (C07.R2), R8 capacity summed over every listed node, R9 the cloud request is cut short by the maximum only, R10 an untainted node is one brought into service: the untaint candidates are uncordoned tainted nodes (C01.R5), R11 the delta acted on is the computed one (band table and overrides, C06.R1 / R2)",
 		Assumptions: []string{"floating-point evaluation, overflow and unequal node sizes are not decided; this is a structural necessary condition of the numeric property"}})
 	register(&propSpec{ID: "C13", Run: checkC13,
 		Explanation: "Units, composition and fold shape: Resource.MilliCPU is only ever stored from millicore-valued terms and Resource.Memory from byte-valued terms (unit analysis over Quantity accessors, switch cases on the resource name, constructor arguments); per pod the accumulator receives Add(container requests) for every container, then SetMaxResource(init container requests) for every init container, then Add(overhead) if present, in that dominance order, with Add ≡ += and SetMaxResource ≡ max per resource; totals over pods / untainted nodes are loop-carried sums updated only by += of a per-element term in full range loops (hence permutation-invariant, every element counted once); percent ≡ 100·req/cap per resource with like divided by like; decisions use max(cpu%, mem%).",
@@ -327,6 +327,10 @@ func checkC05(ck *Check) {
 	// R10 a node untainted counts as one node brought into service: the untaint candidates are
 	// uncordoned tainted nodes (the classifier's guard, decided as C01.R5)
 	ck.classification("C05.R10", map[int]string{1: "tainted"})
+	// R11 the delta handed to ScaleUp is the computed one: above the scale-up threshold the decision
+	// takes calcScaleUpDelta's result, raised — never replaced — by the two documented overrides
+	// (the band table and the overrides of C06.R1 / R2)
+	ck.shareRules(checkC06, "C05.R11", "C06.R1", "C06.R2")
 }
 
 // retCase: one way a function returns — the path condition (helpers' conditions conjoined) and the
